@@ -23,7 +23,14 @@
    of every ancestor of that node below the root (C14_render_clipped_to_all_ancestors); the
    root's own clip is the window it is handed (Surface.render's interface); App.Run (fix 185add5)
    hands the root a window of the root's own size, so under App.Run every painted cell also lies
-   inside the root surface (C14_app_render_clipped_to_root; the old call is refuted). *)
+   inside the root surface (C14_app_render_clipped_to_root; the old call is refuted).
+   App.Run over a HISTORY of terminal resizes (shrink, grow again, same size; a frame after each):
+   no window survives between frames — frame k is the single-frame model of step k alone, painted
+   through a window of the CURRENT terminal size (C14_app_history_frame_independent), the model's
+   history meets the decidable check of stream apphist (C14_app_history_meets_spec), and a root
+   window fetched once and refitted with Window.New on Resize is refuted
+   (C14_cached_root_window_refuted).  "In z-order" is the mathematical order of the integers
+   (sorter_ok quantifies over all of Z; C14_z_order_extremes at the ends of Go's int range). *)
 From Vx Require Import base.Prelude model.Surface model.Widgets model.WidgetsHist
   proofs.SurfaceProofs proofs.WidgetsProofs proofs.RenderProofs proofs.PaintProofs
   proofs.WidgetsHistProofs.
@@ -493,3 +500,50 @@ Print Assumptions C14_old_text_height_refuted.
 Theorem C14_center_misfit_offset : u16 (2 - 3) / 2 = 32767.
 Proof. exact center_offset_misfit. Qed.
 Print Assumptions C14_center_misfit_offset.
+
+(* ================================================================== App.Run over a history of terminal resizes *)
+
+(* One App.Run, the terminal resized between frames (any sequence of sizes: shrinking, growing
+   again, the same size).  The model's history passes the decidable check applied to the real
+   App.Run ([apphist_ok]: no panic, one screen per step, and every frame satisfies [apprun_ok]
+   for the terminal size of ITS OWN step): "no mismatch" implies "no violation" for stream apphist. *)
+Theorem C14_app_history_meets_spec : forall inp : apphist_input,
+  sizes_nonneg inp = true -> apphist_ok (inp, apphist_run inp) = true.
+Proof. exact apphist_run_ok. Qed.
+Print Assumptions C14_app_history_meets_spec.
+
+(* no window survives between frames: frame k of any history of well-formed trees is App.Run's
+   single frame [apprun_run] of step k alone — painted through a window of the CURRENT terminal
+   size, whatever the sizes before were *)
+Theorem C14_app_history_frame_independent : forall (inp : apphist_input) k i,
+  sizes_nonneg inp = true -> forallb (fun i : render_input => tree_wf_b (snd i)) inp = true ->
+  nth_error inp k = Some i ->
+  fst (apphist_run inp) = 0 /\ nth_error (snd (apphist_run inp)) k = Some (snd (apprun_run i)).
+Proof. exact apphist_run_frame. Qed.
+Print Assumptions C14_app_history_frame_independent.
+
+(* non-vacuity and regression witness: 5x2 -> 3x1 -> 6x2.  A root window fetched once and refitted
+   with Window.New on Resize can never grow again: it paints only the 3x1 corner of the last frame
+   and fails the check *)
+Theorem C14_cached_root_window_refuted :
+  sizes_nonneg grow_hist = true /\
+  apphist_run grow_hist = (0, [[[1;2;3;4;5];[6;7;8;9;10]]; [[11;12;13]]; [[21;22;23;24;25;26];[27;28;29;30;41;42]]]) /\
+  apphist_cached_run grow_hist = (0, [[[1;2;3;4;5];[6;7;8;9;10]]; [[11;12;13]]; [[21;22;23;0;0;0];[0;0;0;0;0;0]]]) /\
+  apphist_ok (grow_hist, apphist_cached_run grow_hist) = false /\
+  apphist_obs_eqb (apphist_run grow_hist) (apphist_cached_run grow_hist) = false.
+Proof. exact apphist_cached_refuted. Qed.
+Print Assumptions C14_cached_root_window_refuted.
+
+(* "in z-order" is the mathematical order of the integers ([sorter_ok] quantifies over all of Z):
+   at the ends of Go's int range — an overlay at MaxInt over a background at -1, whichever is
+   added first, MinInt below everything — where a difference of two z-indices does not fit an int *)
+Theorem C14_z_order_extremes :
+  let maxint := 9223372036854775807 in let minint := -9223372036854775808 in
+  let bg := Surf 2 1 [7;8] [] in let ov := Surf 1 1 [9] [] in let lo := Surf 2 1 [5;6] [] in
+  stable_perm [-1; maxint] = [0%nat; 1%nat] /\ stable_perm [maxint; -1] = [1%nat; 0%nat] /\
+  stable_perm [-1; maxint; 0] = [0%nat; 2%nat; 1%nat] /\ stable_perm [1; minint; maxint; -1] = [1%nat; 3%nat; 0%nat; 2%nat] /\
+  render_run (3, 1, Surf 3 1 [1;2;3] [(0, 0, -1, bg); (0, 0, maxint, ov)]) = (0, [[9;8;3]]) /\
+  render_run (3, 1, Surf 3 1 [1;2;3] [(0, 0, maxint, ov); (0, 0, -1, bg)]) = (0, [[9;8;3]]) /\
+  render_run (3, 1, Surf 3 1 [1;2;3] [(0, 0, -1, bg); (0, 0, maxint, ov); (0, 0, minint, lo)]) = (0, [[9;8;3]]).
+Proof. exact z_extreme_order. Qed.
+Print Assumptions C14_z_order_extremes.
